@@ -37,7 +37,10 @@ def main(argv):
         for unit, mapping in prog.renamed:
             print('NOTE: local variables of %s differ from the reference tree by renaming only (%s); reports use the reference names'
                   % (unit, ', '.join('%s was %s' % (a, b) for a, b in sorted(mapping.items()))))
+        for unit, n_sites in prog.inlined:
+            print('NOTE: %s does not exist in the reference tree; it is analysed expanded at its %d call site(s) (extract-helper refactoring)' % (unit, n_sites))
         report.stats['renamed_locals'] = len(prog.renamed)
+        report.stats['expanded_helpers'] = len(prog.inlined)
         report.stats['modules'] = len(prog.modules)
         report.stats['classes'] = len(prog.classes)
         report.stats['functions'] = len(prog.functions)
